@@ -608,7 +608,17 @@ def owned_region(facts, entry):
         cache = facts._owned = {}
     if entry in cache:
         return cache[entry]
-    mod = entry.rsplit("::", 1)[0] + "::"
+    # the module of the entry: for a method `m::Type::f` (or `m::Type<T>::f`) that is `m::`, not the type
+    segs = re.sub(r"<[^<>]*>", "", entry).split("::")[:-1]
+    while segs and segs[-1][:1].isupper():
+        segs.pop()
+    mod = "::".join(segs) + "::"
+    # functions the reviewed tree already had keep the scope they were reviewed under (`<entry's path>::*`); what a
+    # refactoring ADDS to the module (a `SyncBatch` with phases of `DB::prepare_sync`) is taken in by the wider, module rule
+    old_mod = entry.rsplit("::", 1)[0] + "::"
+    import inline
+
+    known = inline.load_known() or set()
     owned = set()
     changed = True
     while changed:
@@ -616,6 +626,8 @@ def owned_region(facts, entry):
         for body in facts.bodies.values():
             fid = body.id
             if fid in owned or fid == entry or not fid.startswith(mod):
+                continue
+            if not fid.startswith(old_mod) and re.sub(r"::\{closure.*$", "", fid) in known:
                 continue
             if body.kind == "Closure":
                 par = body.parent
@@ -1137,6 +1149,44 @@ def pending_truncate_consumers(ctx, rep):
 # ---- O12 (C03): writer / redo agreement on the occupancy map ---------------------------------------
 
 
+def _o12_queue_blocks(body):
+    def from_page_index(op, depth=0):
+        for r in trace(body, op):
+            if r.kind == "call" and str(r.what).endswith("MetaMap::page_index"):
+                return True
+            if r.kind == "agg" and r.obj is not None and depth < 3 and any(from_page_index(o, depth + 1) for o in r.obj.get("ops", [])):
+                return True
+        return False
+
+    out = []
+    for b, t in body.calls():
+        c = t.get("callee") or ""
+        if c.rsplit("::", 1)[-1] in ("insert", "extend") and t["args"] and ("HashSet" in c or "hash" in c.lower() or "HashSet" in body.op_ty(t["args"][0])) and len(t["args"]) > 1 and from_page_index(t["args"][1]):
+            out.append(b)
+    return out
+
+
+def _followed_in_entry(ctx, entry_id, helper_id, gates_of):
+    """every call (direct or through owned helpers) of `helper_id` in the entry is followed, on every success path to the next
+    iteration / return of the entry, by one of the entry's gate blocks"""
+    facts = ctx.facts
+    E = facts.body(entry_id)
+    region = owned_region(facts, entry_id)
+    ebs = entry_blocks(facts, E, helper_id.split("::{closure")[0], region)
+    if not ebs:
+        return False
+    gates = set(gates_of(E))
+    loops = ctx.model.loops(E)
+    rem = set(E.ok_removed()) | gates
+    for eb in ebs:
+        cands = [(h, blk) for (h, blk, lat) in loops if eb in blk]
+        inner = min(cands, key=lambda x: len(x[1]))[0] if cands else None
+        targets = set(E.return_blocks()) | ({inner} if inner is not None else set())
+        if E.reachable([x for x in E.succ(eb) if x not in rem], rem) & targets:
+            return False
+    return True
+
+
 def o12(ctx, rep):
     """in the sync writer (DB::prepare_sync) and in the WAL redo (recover), every mutation of the in-memory
     occupancy map (MetaMap::set_tombstone / set_full) is followed, on every path to the next iteration or
@@ -1176,6 +1226,9 @@ def o12(ctx, rep):
             targets = set(body.return_blocks()) | ({inner} if inner is not None else set())
             reach = body.reachable(body.succ(b), rem)
             ok = not (reach & targets)
+            if not ok and body.id != fn:
+                # a helper that only marks the bucket (`allocate_bucket`): the page is queued by the entry after the call
+                ok = _followed_in_entry(ctx, fn, body.id, _o12_queue_blocks)
             rep.check(ok, "O12", short(body.id), "%s=>queue-meta-page" % t["callee"].split("::")[-1], "after %s at %s a path reaches the next iteration / return without queueing the bucket's meta page for writeout: the hash-table file would keep the old occupancy byte" % (t["callee"].split("::")[-1], t.get("ln")), site=t.get("ln"), detail="%s at %s is followed on every path by insert(page_index(bucket))" % (t["callee"].split("::")[-1], t.get("ln")))
     for fn, k in sorted(total_muts.items()):
         rep.floor("O12 occupancy-map mutation sites in %s (and its private helpers)" % short(fn), k, 2)
@@ -1207,7 +1260,8 @@ def o13(ctx, rep):
     for a in (W_CLEAR, W_UPDATE, W_RESET, W_FINALIZE):
         facts.body(a)  # fail closed (anchor missing) rather than report every change as unrecorded
     entry = "nomt::bitbox::DB::prepare_sync"
-    bodies = [facts.body(entry)] + [facts.bodies[x] for x in sorted(owned_region(facts, entry)) if facts.bodies[x].kind != "Closure"]
+    region_all = owned_region(facts, entry)
+    bodies = [facts.body(entry)] + [facts.bodies[x] for x in sorted(region_all) if facts.bodies[x].kind != "Closure"]
     seen = {"clear": 0, "update": 0, "data": 0}
 
     def bucket_roots(body, op):
@@ -1277,6 +1331,8 @@ def o13(ctx, rep):
             n += 1
             ub = [x for (x, _t) in updates]
             ok = followed(b, ub) or preceded(b, ub)
+            if not ok and body.id != entry:
+                ok = _followed_in_entry(ctx, entry, body.id, lambda E_: [x for x, t_ in E_.calls() if t_.get("callee") == W_UPDATE])
             rep.check(ok, "O13", short(body.id), "set_full=>write_update", "after MetaMap::set_full at %s a path reaches the next iteration / return without a WAL Update entry: recovery could not re-create the bucket" % t.get("ln"), site=t.get("ln"), detail="set_full at %s is paired with write_update on every path" % t.get("ln"))
         for (b, t, idx) in datas:
             n += 1
@@ -1295,8 +1351,19 @@ def o13(ctx, rep):
         seen["update"] += len(updates)
         ent = clears + updates
         if ent:
-            resets = [x for x, t in calls if t.get("callee") == W_RESET]
-            fins = [x for x, t in calls if t.get("callee") == W_FINALIZE]
+            def phase_calls(target):
+                """blocks that call `target`, directly or through a private phase that calls it on every path to its return"""
+                out = [x for x, t in calls if t.get("callee") == target]
+                for x, t in calls:
+                    hb_ = facts.bodies.get(t.get("callee") or "")
+                    if hb_ is not None and hb_.id in region_all and hb_.kind != "Closure":
+                        inner = [y for y, t2 in hb_.calls() if t2.get("callee") == target]
+                        if inner and not (hb_.reachable([0], set(inner)) & set(hb_.return_blocks())):
+                            out.append(x)
+                return out
+
+            resets = phase_calls(W_RESET)
+            fins = phase_calls(W_FINALIZE)
             if body.id == entry or resets or fins:
                 n += 1
                 rep.check(bool(resets) and all(any(body.dominates(r, e) for r in resets) for (e, _t) in ent), "O13", short(body.id), "reset-first", "a WAL entry can be written before WalBlobBuilder::reset(sync_seqn): the blob would carry entries of another sync or the wrong sequence number", site=body.span, detail="reset at bb%s dominates every entry" % resets)
